@@ -86,7 +86,7 @@ G("from_pdu", impl=r"impl DataPDU", props=["C06"], keys=True,
            ("C06", "control-layout", "r is Ok && r->Ok_0.pdu_type is Pdutype2Control ==> control_fields(r->Ok_0.message.fields())"),
            ("C06", "error-info-layout", "r is Ok && r->Ok_0.pdu_type is Pdutype2SetErrorInfoPdu ==> error_info_fields(r->Ok_0.message.fields())")],
   hints=keep("result"))
-G("from_fp", impl=r"impl FastPathUpdate", props=["C06", "C10"], keys=True,
+G("from_fp", impl=r"impl FastPathUpdate", props=["C06", "C10"], keys=True, attrs=["#[verifier::rlimit(60)]"],
   requires=["has_key(fast_path.fields(), \"updateHeader\"@)", "has_key(fast_path.fields(), \"updateData\"@)"],
   ensures=[("C06,C10", "bitmap-layout", "r is Ok && r->Ok_0.fp_type is FastpathUpdatetypeBitmap ==> fp_bitmap_fields(r->Ok_0.message.fields())")],
   hints=keep("result", """if result.fp_type is FastpathUpdatetypeBitmap {
